@@ -161,6 +161,13 @@ func mcjCase(c *hlib.Ctx) {
 	delta := conjDelta(c, bmax.Sub(bmin).MaxCoord(), 12)
 	iters := c.Rng.Intn(9)
 	c.Stat(fmt.Sprintf("c02.mcj.transforms_%d", len(xs)), 1)
+	{
+		o := joined.Apply(model3d.XYZ(0, 0, 0))
+		e1, e2, e3 := joined.Apply(model3d.X(1)).Sub(o), joined.Apply(model3d.Y(1)).Sub(o), joined.Apply(model3d.Z(1)).Sub(o)
+		if e1.Dot(e2.Cross(e3)) < 0 {
+			c.Stat("c02.mcj.transform_list_reverses_orientation", 1)
+		}
+	}
 	op := fmt.Sprintf("c02 mcj %d %s %s %s %s %s", iters, hlib.RatStr(delta), strings.ReplaceAll(rat3(s.min), ",", " "),
 		strings.ReplaceAll(rat3(s.max), ",", " "), xfsStr(xs), t)
 	announce(op)
@@ -187,7 +194,15 @@ func mcjCase(c *hlib.Ctx) {
 		sort.Strings(out)
 		bs := labels3(ts, lx, ly, lz)
 		side := sideCheck(pts, axes, func(i []int) bool { return bs[i[0]+len(lx)*(i[1]+len(ly)*i[2])] })
-		return fmt.Sprintf("n=%d side=%s near=%s %s", len(out), side, near, strings.Join(out, ";"))
+		var tris [][3][3]float64
+		m.Iterate(func(t *model3d.Triangle) {
+			var tt [3][3]float64
+			for i, p := range t {
+				tt[i] = [3]float64{p.X, p.Y, p.Z}
+			}
+			tris = append(tris, tt)
+		})
+		return fmt.Sprintf("n=%d side=%s near=%s orient=%s %s", len(out), side, near, conjOrient3(tris), strings.Join(out, ";"))
 	}))
 }
 
@@ -212,6 +227,13 @@ func msjCase(c *hlib.Ctx) {
 	delta := conjDelta(c, math.Max(ext.X, ext.Y), 24)
 	iters := c.Rng.Intn(9)
 	c.Stat(fmt.Sprintf("c02.msj.transforms_%d", len(xs)), 1)
+	{
+		o := joined.Apply(model2d.XY(0, 0))
+		e1, e2 := joined.Apply(model2d.X(1)).Sub(o), joined.Apply(model2d.Y(1)).Sub(o)
+		if e1.X*e2.Y-e1.Y*e2.X < 0 {
+			c.Stat("c02.msj.transform_list_reverses_orientation", 1)
+		}
+	}
 	op := fmt.Sprintf("c02 msj %d %s %s %s %s %s", iters, hlib.RatStr(delta), strings.ReplaceAll(rat2(s.min), ",", " "),
 		strings.ReplaceAll(rat2(s.max), ",", " "), xfsStr(xs), t)
 	announce(op)
@@ -237,7 +259,16 @@ func msjCase(c *hlib.Ctx) {
 		sort.Strings(out)
 		bs := labels2(ts, lx, ly)
 		side := sideCheck(pts, axes, func(i []int) bool { return bs[i[0]+len(lx)*i[1]] })
-		return fmt.Sprintf("n=%d side=%s near=%s %s", len(out), side, near, strings.Join(out, ";"))
+		var segs [][2][2]float64
+		m.Iterate(func(sg *model2d.Segment) {
+			segs = append(segs, [2][2]float64{{sg[0].X, sg[0].Y}, {sg[1].X, sg[1].Y}})
+		})
+		inv := joined.Inverse()
+		orient := conjOrient2(c, segs,
+			func(p [2]float64) [2]float64 { q := joined.Apply(model2d.XY(p[0], p[1])); return [2]float64{q.X, q.Y} },
+			func(p [2]float64) [2]float64 { q := inv.Apply(model2d.XY(p[0], p[1])); return [2]float64{q.X, q.Y} },
+			axes, func(i []int) bool { return bs[i[0]+len(lx)*i[1]] })
+		return fmt.Sprintf("n=%d side=%s near=%s orient=%s %s", len(out), side, near, orient, strings.Join(out, ";"))
 	}))
 }
 
